@@ -16,9 +16,9 @@ CHECKS = {
              'with a serial twin run of the same code, with the objective call log and with a read-mode view of the '
              'database at the moment evaluate() returns; whole NSGA-II / eps-MOEA / swarm / sweep runs with 2-4 workers are compared '
              'with the same run executed serially; an abort family checks the designs other workers finished when one design '
-             'propagates an exception. Sampling of schedules, not proof; interleavings are quantified at objective-call and '
+             'propagates an exception; batch histories may continue in a later session that re-opens the store file (designs read back evaluated must not reach the objective in either mode). Sampling of schedules, not proof; interleavings are quantified at objective-call and '
              'SQL-statement granularity (what the property states) and, in a sixth of the runs, at source-line granularity '
-             '(sys.monitoring LINE events inside the library). Found defect F5 on the pinned tree (fixed in /repo).',
+             '(sys.monitoring LINE events inside the library). Found defects F5 and F7 on the pinned tree (fixed in /repo).',
         note='joblib replaced by a stub with the same dispatch/memory/exception semantics; pre-emption only at yield '
              'points; busy handler modelled (5 s virtual) over the real libsqlite3; objective failures off.',
         technique=TECH + ': seeded schedule search (random/PCT/rr/starve) + stall and busy-timeout injection, '
@@ -29,9 +29,9 @@ CHECKS['C05'] = dict(
     level='exploration', ref='DESIGN.md 6 (C05)',
     text='Seeded generation of operation histories (fresh / mixed / repeated batches, scalar queries, sweeps over four '
          'generators, real SciPy and NLopt optimisers through the scalar bridge), serial and under simulated worker '
-         'schedules, optionally with an SQLite store whose lock a simulated foreign process holds during a write; a shadow model fed from the objective\'s own call log decides call counts, state, cost/vector '
+         'schedules, optionally with an SQLite store whose lock a simulated foreign process holds during a write and which a later session re-opens (designs read back from it are evaluated designs), optionally after an unrelated decoy problem was used in the same session; a shadow model fed from the objective\'s own call log decides call counts, state, cost/vector '
          'pairing, sign and rounding of the signed costs and the feasibility marker order after every operation. '
-         'Sampling of histories, not proof.',
+         'Sampling of histories, not proof. Found defect F7 on the pinned tree (fixed in /repo).',
     note='objective owned by the harness and recomputed by the oracle; failures off; default evaluator only; joblib stubbed.',
     technique=TECH + ': seeded operation histories + schedule search, shadow-model oracle over the call log')
 CHECKS['C06'] = dict(
@@ -53,7 +53,7 @@ CHECKS['C10'] = dict(
          'a reference dict id -> last synchronised fields, built from the attributes and not through artap\'s own '
          'to_dict, is compared bit-exactly through ProblemViewDataStore and raw row counts after the history and at '
          'seeded intermediate points; a simulated foreign process may hold the database lock across a synchronisation, and the '
-         'file may first hold another problem and be opened with mode="rewrite". Sampling of histories, not proof.',
+         'file may first hold another problem and be opened with mode="rewrite", may be re-opened by a later session (optionally a new interpreter whose id counter starts again), and a fifth of the histories use the single-connection store (thread_safe=False). Sampling of histories, not proof.',
     note='single writer (C07 covers concurrent writers); float bounds/costs (O1); NaN not generated; real libsqlite3 on tmpfs.',
     technique=TECH + ': seeded operation histories against the real store, reference-model oracle through a read-mode view')
 CHECKS['C11'] = dict(
@@ -132,7 +132,7 @@ CHECKS['C14'] = dict(
          're-submission) and the batch sequences of NSGA-II / eps-MOEA runs constructed with these evaluator types; after every '
          'batch the neighbour set, neighbour costs, sensitivity sum, cost-vector length, gradient quotient and call budget are '
          'checked for all designs ever handed to the evaluator; designs may fail transiently, have integer coordinates or be '
-         're-submitted, OMOPSO / SMPSO runs get the evaluator set on the object. Found defects F2 and F6 (fixed in /repo). Sampling.',
+         're-submitted, earlier vectors are re-visited by new design objects under an objective that hands out the same (memoised) list again, OMOPSO / SMPSO runs get the evaluator set on the object. Found defects F2 and F6 (fixed in /repo). Sampling.',
     note='failures off (O2); NSGA-II parent copies skipped; sensitivity to 1e-12, gradient to 1e-9 relative.',
     technique=TECH + ': seeded batch histories, history oracle over all earlier designs after every batch')
 CHECKS['C17'] = dict(
@@ -156,8 +156,8 @@ CHECKS['C19'] = dict(
     text='Seeded request histories (1-40 requests) against SurrogateModelEval, SurrogateModelPredict (logging train) and '
          'SurrogateModelScikit (stub regressor) with train_step in {-1,1,2,3,5,10}, initially trained or not, hook present or absent, '
          'hook accept/decline (and the kind of value it returns) per request from the fault stream; also requests produced by real '
-         'Job.evaluate in batches and runs, and by 2-3 simulated workers (schedule-independent accounting only). A reference model '
-         'of counters / training lists / trained flag / train schedule is compared after every request. Sampling.',
+         'Job.evaluate in batches (simple, worst-case and gradient evaluator) and runs, and by 2-3 simulated workers (schedule-independent accounting only); surrogates may start with pre-loaded training pairs. A reference model '
+         'of counters / training lists / trained flag / train schedule is compared after every request and again after each batch. Sampling.',
     note='sequential requests (O3); regressors stubbed.',
     technique=TECH + ': seeded request histories with injected hook decisions, reference-model oracle after every request')
 
